@@ -17,8 +17,7 @@ RT_SOURCE = r'''
 import os
 W = []          # remaining choices of the path word
 LOG = []        # [id, value] events
-_trace = os.environ.get("C21_TRACE")
-_fd = os.open(_trace, os.O_WRONLY | os.O_CREAT | os.O_APPEND) if _trace else None
+_fd = None      # set by the driver: every event is also written through to a trace file (survives a crash)
 
 class Obj(object):
     __slots__ = ("k",)
@@ -304,7 +303,7 @@ def module_source(funcs):
 # ------------------------------------------------------------------ replay driver (child process)
 
 DRIVER = r'''
-import sys, os, json, importlib, importlib.util
+import sys, os, json, signal, importlib, importlib.util
 moddir, modname, mode, infile, outfile, start = sys.argv[1:7]
 start = int(start)
 sys.path.insert(0, moddir)
@@ -317,22 +316,76 @@ else:
     if not mod.__file__.endswith(".so"):
         print("@@" + json.dumps({"fatal": "not an extension: %s" % mod.__file__})); sys.exit(3)
 calls = json.load(open(infile))
-fd = os.open(outfile, os.O_WRONLY | os.O_CREAT | os.O_APPEND)
-for i in range(start, len(calls)):
-    fn, word = calls[i]
-    rt.reset(word)
-    try:
-        r = getattr(mod, fn)()
-        out = "ret" if r == "ret" else ("end" if r is None else "value:%r" % (r,))
-    except BaseException as e:
-        out = "E:" + type(e).__name__
-    os.write(fd, (json.dumps([i, [list(rt.LOG), out]]) + "\n").encode())
-os.close(fd)
-print("@@" + json.dumps({"done": len(calls)}))
+tracefile = outfile + ".trace"
+
+def work(first):
+    # runs in a forked worker: one result line per call, every event also written through to the trace file
+    fd = os.open(outfile, os.O_WRONLY | os.O_CREAT | os.O_APPEND)
+    rt._fd = os.open(tracefile, os.O_WRONLY | os.O_CREAT | os.O_TRUNC)
+    for i in range(first, len(calls)):
+        fn, word = calls[i]
+        os.write(rt._fd, ("#%d\n" % i).encode())
+        rt.reset(word)
+        signal.alarm(20)
+        try:
+            r = getattr(mod, fn)()
+            out = "ret" if r == "ret" else ("end" if r is None else "value:%r" % (r,))
+        except BaseException as e:
+            out = "E:" + type(e).__name__
+        signal.alarm(0)
+        os.write(fd, (json.dumps([i, [list(rt.LOG), out]]) + "\n").encode())
+
+def done_upto():
+    n = -1
+    if os.path.exists(outfile):
+        with open(outfile) as f:
+            for line in f:
+                try:
+                    n = max(n, json.loads(line)[0])
+                except ValueError:
+                    pass
+    return n
+
+def traced(idx):
+    log, on = [], False
+    if os.path.exists(tracefile):
+        with open(tracefile) as f:
+            for line in f:
+                if line.startswith("#"):
+                    on = line.strip() == "#%d" % idx
+                elif on:
+                    p = line.split()
+                    if len(p) == 2:
+                        log.append([int(p[0]), int(p[1])])
+    return log
+
+# supervisor: a worker that dies (signal) costs one fork, not a new interpreter
+first, crashes = start, 0
+while first < len(calls):
+    sys.stdout.flush()
+    pid = os.fork()
+    if pid == 0:
+        try:
+            work(first)
+        finally:
+            os._exit(0)
+    _, status = os.waitpid(pid, 0)
+    if os.WIFEXITED(status) and os.WEXITSTATUS(status) == 0 and done_upto() >= len(calls) - 1:
+        break
+    bad = max(done_upto(), first - 1) + 1
+    if bad >= len(calls):
+        break
+    sig = os.WTERMSIG(status) if os.WIFSIGNALED(status) else 0
+    what = "TIMEOUT" if sig == signal.SIGALRM else ("CRASH:%d" % sig if sig else "CRASH:exit%d" % os.WEXITSTATUS(status))
+    with open(outfile, "a") as f:
+        f.write(json.dumps([bad, [traced(bad), what]]) + "\n")
+    crashes += 1
+    first = bad + 1
+print("@@" + json.dumps({"done": len(calls), "crashes": crashes}))
 '''
 
 
-def run_paths(moddir, modname, mode, calls, tag, timeout=900, trace_crashes=True):
+def run_paths(moddir, modname, mode, calls, tag, timeout=900):
     """calls: [[fname, word], ...] -> list of [log, out]; out = "CRASH:<sig>" / "TIMEOUT" when the child died
     (log then holds the events traced up to the crash)."""
     inf = os.path.join(moddir, "%s_%s_in.json" % (modname, tag))
@@ -371,35 +424,29 @@ def run_paths(moddir, modname, mode, calls, tag, timeout=900, trace_crashes=True
             o = "CRASH:exit%s" % ch.rc
             if "Error" in ch.err and crashes == 0 and nxt == 0 and not ch.crashed:
                 core.die("C21 driver failed: %s" % ch.err[-1500:])
-        log = []
-        if trace_crashes and ch.crashed:
-            log = trace_one(moddir, modname, mode, calls[nxt])
+        log = read_trace(outf + ".trace", nxt) if ch.crashed else []
         obs[nxt] = [log, o]
         core.CRASH_LOGS.append({"module": modname, "call": calls[nxt], "obs": o, "stderr": ch.err[-1500:]})
         crashes += 1
         if crashes > 5000:
             core.die("C21: too many crashes")
         start = nxt + 1
+    for c, o in zip(calls, obs):
+        if o is not None and isinstance(o[1], str) and (o[1].startswith("CRASH") or o[1] == "TIMEOUT") and len(core.CRASH_LOGS) < 200:
+            core.CRASH_LOGS.append({"module": modname, "call": c, "obs": o[1]})
     return obs
 
 
-def trace_one(moddir, modname, mode, call):
-    """re-run one crashing call with every event written through to a file: the log up to the crash"""
-    tr = os.path.join(moddir, "%s_trace.txt" % modname)
-    if os.path.exists(tr):
-        os.unlink(tr)
-    one = os.path.join(moddir, "%s_one_in.json" % modname)
-    oneout = os.path.join(moddir, "%s_one_out.ndjson" % modname)
-    with open(one, "w") as f:
-        json.dump([call], f)
-    if os.path.exists(oneout):
-        os.unlink(oneout)
-    core.run_child(DRIVER, [moddir, modname, mode, one, oneout, "0"], timeout=60, mem_mb=4096, env={"C21_TRACE": tr})
-    log = []
-    if os.path.exists(tr):
-        with open(tr) as f:
+def read_trace(path, idx):
+    """events that call number idx wrote through before the child died"""
+    log, on = [], False
+    if os.path.exists(path):
+        with open(path) as f:
             for line in f:
-                p = line.split()
-                if len(p) == 2:
-                    log.append([int(p[0]), int(p[1])])
+                if line.startswith("#"):
+                    on = line.strip() == "#%d" % idx
+                elif on:
+                    p = line.split()
+                    if len(p) == 2:
+                        log.append([int(p[0]), int(p[1])])
     return log
